@@ -1,0 +1,10 @@
+//go:build verif && linux
+
+package packets
+
+import "os"
+
+// VerifNewAFPacketSourceOn wraps an already open socket in the AF_PACKET source, so that the verification harness can run
+// the real SetPacketFilter / Read code without CAP_NET_RAW (it hands in one end of a datagram socketpair, on which the
+// kernel runs attached filters over each datagram from its first byte).
+func VerifNewAFPacketSourceOn(sock *os.File) Source { return &afPacketSource{sock: sock} }
